@@ -494,6 +494,20 @@ func (ch c03) segmentation(c *core.Ctx, envPlain, envAuth *hs.Env, rng *core.Rng
 		stream = append(stream, st...)
 		shape += s.Kinds[min(i, len(s.Kinds)-1)] + " "
 	}
+	if rng.Intn(4) == 0 {
+		// a COPY whose statement reads the stream chunk by chunk (the text format has no other reader): three
+		// to six CopyData messages, some empty - the chunks it is handed are the client's messages, however the
+		// bytes were delivered
+		q := fmt.Sprintf("copy-chunks-%s", s.User)
+		s.Progs[q] = &hs.Prog{Stmts: []*hs.Stmt{{ID: "chunks", Cols: textCols(1), Ops: []hs.Op{{K: "copy", Copy: &hs.CopyPlan{Format: wire.TextFormat, MaxReads: -1, OnErr: "propagate"}}}}}}
+		add(pg.Query(q))
+		for n := 3 + rng.Intn(4); n > 0; n-- {
+			add(pg.CopyData([]byte(strings.Repeat(fmt.Sprintf("line %d\n", n), rng.Intn(4)))))
+		}
+		add(pg.CopyDone())
+		shape += "copychunks "
+		c.Count("streams_with_a_copy_read_chunk_by_chunk", 1)
+	}
 	if bigAt == len(s.Steps) {
 		bigStep()
 		add(pg.Query(s.User)) // (something behind it)
